@@ -1,8 +1,9 @@
 (* C07 -- In-place merge (+=) agrees with pure merge (+).
-   Content part (every arithmetic instance).  The identity part -- a stays the same object, b is
-   unchanged, a and b share no mutable state afterwards -- is Forest.v / C06.v. *)
-From Coq Require Import List Bool.
-From Hgm Require Import NumOps Agg Ops Merge.
+   Content part (every arithmetic instance) and identity part (identity layer Model/Forest.v,
+   Model/RunId.v: a stays the same object, b is exactly what it was, and no object or dict/list is
+   reachable from two places afterwards). *)
+From Coq Require Import List Bool PArith.
+From Hgm Require Import NumOps Agg Ops Merge Forest Run RunId ForestFacts ForestSep.
 Import ListNotations.
 
 (* after a += b, a has exactly the content of (old a) + b, at every depth, and nothing raises *)
@@ -20,5 +21,46 @@ Proof.
   - intros [c H]. destruct (addable a b) eqn:E; [|discriminate]. rewrite (iadd_add a b E). reflexivity.
 Qed.
 
+(* ---- identity part: the operation a += b of the history machine, a = entry i, b = entry j ---- *)
+
+(* b (content and identities) is exactly what it was, and so is every other aggregator *)
+Theorem C07_b_unchanged : forall (N : num_ops) (w : @world N) i j k,
+  (k < List.length (pl w))%nat -> k <> i ->
+  nth k (pl (fst (stepi w (IBase (OIAdd i j))))) (Run.dummy, dummy_it) = nth k (pl w) (Run.dummy, dummy_it).
+Proof. intros N w i j k Hk Hne. apply step_frame; [exact Hk|]. cbn [target]. congruence. Qed.
+
+Lemma nth_seti_eq (N : num_ops) (p : list (agg N * itree)) : forall i x d,
+  (i < List.length p)%nat -> nth i (seti p i x) d = x.
+Proof.
+  induction p as [|y p IH]; intros i x d H; [cbn in H; inversion H|].
+  destruct i; cbn [seti nth]; [reflexivity|]. apply IH. cbn in H. apply le_S_n. exact H.
+Qed.
+
+(* a remains the same object *)
+Theorem C07_same_object : forall (N : num_ops) (w : @world N) i j,
+  (i < List.length (pl w))%nat ->
+  it_id (snd (nth i (pl (fst (stepi w (IBase (OIAdd i j))))) (Run.dummy, dummy_it))) =
+  it_id (snd (nth i (pl w) (Run.dummy, dummy_it))).
+Proof.
+  intros N w i j Hi. cbn [stepi]. unfold geti. destruct (nth i (pl w) (Run.dummy, dummy_it)) as [a t] eqn:E.
+  destruct (iadd a _) as [a' r]. pose proof (extend_root t a' (nxt w)) as R.
+  destruct (extend t a' (nxt w)) as [t' n']. cbn [fst pl]. rewrite nth_seti_eq by exact Hi. exact R.
+Qed.
+
+(* ... and afterwards no object and no dict/list is reachable from two positions of any one or any
+   two aggregators of the pool: a and b share no mutable state (sep, keys_distinct: see C06) *)
+Theorem C07_no_sharing : forall (N : num_ops) (w : @world N) i j,
+  sep w -> (i < List.length (pl w))%nat ->
+  keys_distinct (fst (iadd (fst (geti w i)) (fst (geti w j)))) ->
+  sep (fst (stepi w (IBase (OIAdd i j)))).
+Proof.
+  intros N w i j S Hi K. cbn [stepi]. pose proof (replace_sep w i (fst (iadd (fst (geti w i)) (fst (geti w j)))) S Hi K) as R.
+  destruct (geti w i) as [a t]. cbn [fst snd] in *. destruct (iadd a (fst (geti w j))) as [a' r]. cbn [fst] in *.
+  destruct (extend t a' (nxt w)) as [t' n']. exact R.
+Qed.
+
 Print Assumptions C07_iadd_content.
+Print Assumptions C07_b_unchanged.
+Print Assumptions C07_same_object.
+Print Assumptions C07_no_sharing.
 Print Assumptions C07_iadd_accepts_iff.
